@@ -1,6 +1,70 @@
 package main
 
-import "math/big"
+import (
+	"go/types"
+	"math/big"
+	"sync"
+)
 
 func bigTwo() *big.Int        { return big.NewInt(2) }
 func bigOf(n int64) *big.Int { return big.NewInt(n) }
+
+// coreOf returns the core type of a type parameter whose type set has a single underlying type
+// (e.g. S ~[]E), or nil.
+func coreOf(tp *types.TypeParam) types.Type {
+	iface, ok := tp.Constraint().Underlying().(*types.Interface)
+	if !ok {
+		return nil
+	}
+	var core types.Type
+	n := 0
+	for i := 0; i < iface.NumEmbeddeds(); i++ {
+		switch u := iface.EmbeddedType(i).(type) {
+		case *types.Union:
+			for j := 0; j < u.Len(); j++ {
+				n++
+				core = u.Term(j).Type()
+			}
+		default:
+			if _, isIface := u.Underlying().(*types.Interface); !isIface {
+				n++
+				core = u
+			}
+		}
+	}
+	if n == 1 {
+		return core
+	}
+	return nil
+}
+
+// norm replaces a type parameter that has a core type by that core type.
+func norm(t types.Type) types.Type {
+	if tp, ok := t.(*types.TypeParam); ok {
+		if c := coreOf(tp); c != nil {
+			return c
+		}
+	}
+	return t
+}
+
+// under is Underlying() that looks through type parameters with a core type.
+func under(t types.Type) types.Type { return norm(t).Underlying() }
+
+// literal type tags: distinct positive integers per dynamic type (so that comparisons with the
+// nil interface fold syntactically)
+var (
+	tagMu   sync.Mutex
+	tagNums = map[string]int64{}
+)
+
+func tagNumber(name string) int64 {
+	tagMu.Lock()
+	defer tagMu.Unlock()
+	if n, ok := tagNums[name]; ok {
+		return n
+	}
+	n := int64(1000 + len(tagNums))
+	tagNums[name] = n
+	return n
+}
